@@ -146,10 +146,11 @@ impl CoreDID {
     while let Some(c) = chars.next() {
       match c {
         '%' => {
-          let digits = chars.clone().take(2).collect::<String>();
-          u8::from_str_radix(&digits, 16).map_err(|_| Error::InvalidMethodId)?;
-          chars.next();
-          chars.next();
+          // pct-encoded = "%" HEXDIG HEXDIG
+          match (chars.next(), chars.next()) {
+            (Some(a), Some(b)) if a.is_ascii_hexdigit() && b.is_ascii_hexdigit() => (),
+            _ => return Err(Error::InvalidMethodId),
+          }
         }
         c if is_char_method_id(c) => (),
         _ => return Err(Error::InvalidMethodId),
